@@ -1353,4 +1353,270 @@ theorem occursInOrder_flatten : ∀ (xs : List (List Char)) (r : List Char),
     simp only [List.flatten_cons, List.append_assoc, occursInOrder, dropThrough_prefix]
     exact occursInOrder_flatten xs r
 
+/-! ## `process_missing_code`, exactly -/
+
+/-- Length of the run of white space at the end of a line. -/
+def trailWs (l : List Char) : Nat := (l.reverse.takeWhile isWs).length
+
+/-- What `process_missing_code` makes of a complete line `l` (given without its `\n`): the last
+character goes when the line ends in an odd number of blanks. -/
+def keepLine (l : List Char) : List Char := if trailWs l % 2 = 1 then l.dropLast else l
+
+/-- The complete lines of `rest` (the first one continues `cur`), each through `keepLine`. -/
+def pmcLines : List Char → List Char → List Char
+  | _, [] => []
+  | cur, c :: rest =>
+    if c = '\n' then keepLine cur ++ ['\n'] ++ pmcLines [] rest else pmcLines (cur ++ [c]) rest
+
+/-- The unfinished last line of `cur ++ rest`. -/
+def lastPart : List Char → List Char → List Char
+  | cur, [] => cur
+  | cur, c :: rest => if c = '\n' then lastPart [] rest else lastPart (cur ++ [c]) rest
+
+theorem trailWs_snoc (l : List Char) (c : Char) :
+    trailWs (l ++ [c]) = if isWs c then trailWs l + 1 else 0 := by
+  unfold trailWs
+  simp only [List.reverse_append, List.reverse_cons, List.reverse_nil, List.nil_append,
+    List.singleton_append, List.takeWhile_cons]
+  split <;> simp
+
+theorem trailWs_nil : trailWs [] = 0 := rfl
+
+/-- How `last_wspace` mirrors the parity of the trailing run of the current line `cur`. -/
+def LwInv (p cur : List Char) (lw : Option Nat) : Prop :=
+  (trailWs cur % 2 = 1 → ∃ c1 c, cur = c1 ++ [c] ∧ lw = some (utf8Len (p ++ c1))) ∧
+  (trailWs cur % 2 = 0 → lw = none)
+
+theorem lastPart_split : ∀ (rest cur : List Char), ∃ a, cur ++ rest = a ++ lastPart cur rest ∧
+    (a = [] ∨ ∃ a', a = a' ++ ['\n'])
+  | [], cur => ⟨[], by simp [lastPart], Or.inl rfl⟩
+  | c :: rest, cur => by
+    unfold lastPart
+    by_cases hc : c = '\n'
+    · subst hc
+      simp only [if_true]
+      obtain ⟨a, ha, _⟩ := lastPart_split rest []
+      rcases ‹a = [] ∨ _› with h | ⟨a', h⟩
+      · refine ⟨cur ++ ['\n'], ?_, Or.inr ⟨cur, rfl⟩⟩
+        rw [h] at ha; simp at ha; simp [← ha]
+      · refine ⟨cur ++ ['\n'] ++ a, ?_, Or.inr ⟨cur ++ ['\n'] ++ a', by rw [h]; simp⟩⟩
+        simp at ha; simp [List.append_assoc, ← ha]
+    · simp only [hc, if_false]
+      obtain ⟨a, ha, hor⟩ := lastPart_split rest (cur ++ [c])
+      exact ⟨a, by simpa [List.append_assoc] using ha, hor⟩
+
+/-- The loop of `process_missing_code`, exactly: it pushes `pmcLines cur rest` and leaves `line_start` in
+front of the unfinished last line. -/
+theorem pmcLoop_exact (snippet : List Char) : ∀ (rest p cur tail : List Char) (i : Nat)
+    (st : RF.Missed.Status) (v : Vis),
+    snippet = p ++ cur ++ rest ++ tail → i = utf8Len (p ++ cur) → st.line_start = utf8Len p →
+    LwInv p cur st.last_wspace →
+    ∃ st' v' p', pmcLoop snippet i rest st v = some (st', v') ∧
+      v'.buffer = v.buffer ++ pmcLines cur rest ∧ v'.blockIndent = v.blockIndent ∧
+      p ++ cur ++ rest = p' ++ lastPart cur rest ∧ st'.line_start = utf8Len p'
+  | [], p, cur, tail, i, st, v, _, _, hls, _ =>
+    ⟨st, v, p, rfl, by simp [pmcLines], rfl, by simp [lastPart], hls⟩
+  | c :: rest, p, cur, tail, i, st, v, hs, hi, hls, hlw => by
+    by_cases hc : c = '\n'
+    · subst hc
+      have hi1 : i + 1 = utf8Len (p ++ (cur ++ ['\n']) ++ []) := by
+        rw [hi]; simp [utf8Len_append, utf8Len, nl_size]; omega
+      have hlw0 : LwInv (p ++ (cur ++ ['\n'])) [] none :=
+        ⟨by intro h; simp [trailWs_nil] at h, fun _ => rfl⟩
+      have hs' : snippet = p ++ (cur ++ ['\n']) ++ [] ++ rest ++ tail := by
+        rw [hs]; simp [List.append_assoc]
+      by_cases hodd : trailWs cur % 2 = 1
+      · obtain ⟨c1, c, hcur, hlwv⟩ := hlw.1 hodd
+        have hsl : sliceBytes? snippet st.line_start (utf8Len (p ++ c1)) = some c1 := by
+          apply sliceBytes_of_split snippet p c1 ([c] ++ '\n' :: rest ++ tail)
+          · rw [hs, hcur]; simp [List.append_assoc]
+          · exact hls
+          · rw [utf8Len_append]
+        obtain ⟨st', v', p', hrun, hbuf, hind, hsplit, hls'⟩ :=
+          pmcLoop_exact snippet rest (p ++ (cur ++ ['\n'])) [] tail (i + 1)
+            { line_start := i + 1, last_wspace := none, cur_line := st.cur_line + 1 }
+            ((v.push .code c1).push .code ['\n']) hs' hi1
+            (by show i + 1 = _; rw [hi]; simp [utf8Len_append, utf8Len, nl_size]; omega) hlw0
+        refine ⟨st', v', p', ?_, ?_, ?_, ?_, hls'⟩
+        · simp only [pmcLoop, if_true, hlwv, hsl]; exact hrun
+        · rw [hbuf]
+          simp only [pmcLines, if_true, keepLine, hodd, Vis.push, List.append_assoc]
+          rw [hcur]; simp
+        · rw [hind]; rfl
+        · have hlp : lastPart cur ('\n' :: rest) = lastPart [] rest := by simp [lastPart]
+          rw [hlp, ← hsplit]; simp [List.append_assoc]
+      · have heven : trailWs cur % 2 = 0 := by omega
+        have hnone := hlw.2 heven
+        have hsl : sliceBytes? snippet st.line_start (i + 1) = some (cur ++ ['\n']) := by
+          apply sliceBytes_of_split snippet p (cur ++ ['\n']) (rest ++ tail)
+          · rw [hs]; simp [List.append_assoc]
+          · exact hls
+          · rw [hi]; simp [utf8Len_append, utf8Len, nl_size]; omega
+        obtain ⟨st', v', p', hrun, hbuf, hind, hsplit, hls'⟩ :=
+          pmcLoop_exact snippet rest (p ++ (cur ++ ['\n'])) [] tail (i + 1)
+            { line_start := i + 1, last_wspace := none, cur_line := st.cur_line + 1 }
+            (v.push .code (cur ++ ['\n'])) hs' hi1
+            (by show i + 1 = _; rw [hi]; simp [utf8Len_append, utf8Len, nl_size]; omega) hlw0
+        refine ⟨st', v', p', ?_, ?_, ?_, ?_, hls'⟩
+        · simp only [pmcLoop, if_true, hnone, hsl]; exact hrun
+        · rw [hbuf]
+          simp only [pmcLines, if_true, keepLine, hodd, if_false, Vis.push, List.append_assoc]
+        · rw [hind]; rfl
+        · have hlp : lastPart cur ('\n' :: rest) = lastPart [] rest := by simp [lastPart]
+          rw [hlp, ← hsplit]; simp [List.append_assoc]
+    · have hi1 : i + c.utf8Size = utf8Len (p ++ (cur ++ [c])) := by
+        rw [hi]; simp [utf8Len_append, utf8Len]; omega
+      have hs1 : snippet = p ++ (cur ++ [c]) ++ rest ++ tail := by rw [hs]; simp [List.append_assoc]
+      have hfin : ∀ (lw' : Option Nat), LwInv p (cur ++ [c]) lw' →
+          ∃ st' v' p', pmcLoop snippet (i + c.utf8Size) rest { st with last_wspace := lw' } v = some (st', v') ∧
+            v'.buffer = v.buffer ++ pmcLines cur (c :: rest) ∧ v'.blockIndent = v.blockIndent ∧
+            p ++ cur ++ c :: rest = p' ++ lastPart cur (c :: rest) ∧ st'.line_start = utf8Len p' := by
+        intro lw' hinv
+        obtain ⟨st', v', p', hrun, hbuf, hind, hsplit, hls'⟩ :=
+          pmcLoop_exact snippet rest p (cur ++ [c]) tail (i + c.utf8Size)
+            { st with last_wspace := lw' } v hs1 hi1 hls hinv
+        refine ⟨st', v', p', hrun, ?_, hind, ?_, hls'⟩
+        · rw [hbuf]; simp [pmcLines, hc]
+        · have hlp : lastPart cur (c :: rest) = lastPart (cur ++ [c]) rest := by simp [lastPart, hc]
+          rw [hlp, ← hsplit]; simp [List.append_assoc]
+      by_cases hws : isWs c = true
+      · by_cases hnone : st.last_wspace = none
+        · -- even run becomes odd
+          have hev : trailWs cur % 2 = 0 := by
+            by_cases h : trailWs cur % 2 = 1
+            · obtain ⟨_, _, _, h2⟩ := hlw.1 h; rw [hnone] at h2; cases h2
+            · omega
+          obtain ⟨st', v', p', hrun, rest'⟩ := hfin (some i) (by
+            refine ⟨fun _ => ⟨cur, c, rfl, by rw [hi]⟩, ?_⟩
+            intro h; rw [trailWs_snoc, if_pos hws] at h; omega)
+          refine ⟨st', v', p', ?_, rest'⟩
+          simp only [pmcLoop, hc, if_false, hws, hnone, Option.isNone_none, Bool.and_self, if_true]
+          exact hrun
+        · have hodd : trailWs cur % 2 = 1 := by
+            by_cases h : trailWs cur % 2 = 0
+            · exact absurd (hlw.2 h) hnone
+            · omega
+          obtain ⟨st', v', p', hrun, rest'⟩ := hfin none (by
+            refine ⟨?_, fun _ => rfl⟩
+            intro h; rw [trailWs_snoc, if_pos hws] at h; omega)
+          refine ⟨st', v', p', ?_, rest'⟩
+          have : st.last_wspace.isNone = false := by
+            cases h : st.last_wspace with
+            | none => exact absurd h hnone
+            | some _ => rfl
+          simp only [pmcLoop, hc, if_false, hws, this, Bool.and_false, Bool.false_eq_true]
+          exact hrun
+      · obtain ⟨st', v', p', hrun, rest'⟩ := hfin none (by
+          refine ⟨?_, fun _ => rfl⟩
+          intro h; rw [trailWs_snoc] at h; simp [hws] at h)
+        refine ⟨st', v', p', ?_, rest'⟩
+        have : isWs c = false := by simpa using hws
+        simp only [pmcLoop, hc, if_false, this, Bool.false_and, Bool.false_eq_true]
+        exact hrun
+
+/-- What `process_missing_code` writes for the slice `sub`, with `indent` = the indentation string. -/
+def pmcSpec (indent sub : List Char) : List Char :=
+  pmcLines [] sub ++
+    (if (trim (lastPart [] sub)).isEmpty then [] else indent ++ trim (lastPart [] sub))
+
+theorem processMissingCode_exact (env : Env) (snippet pre sub tail : List Char)
+    (hs : snippet = pre ++ sub ++ tail) (st : RF.Missed.Status) (v : Vis)
+    (hls : st.line_start = utf8Len pre) (hlw : st.last_wspace = none) (indent : List Char)
+    (hind : indentStr? env v.blockIndent = some indent) :
+    ∃ st' v', processMissingCode env snippet sub (utf8Len pre) st v = some (st', v') ∧
+      v'.buffer = v.buffer ++ pmcSpec indent sub := by
+  obtain ⟨st1, v1, p', hrun, hbuf, hbi, hsplit, hls1⟩ :=
+    pmcLoop_exact snippet sub pre [] tail (utf8Len pre) st v (by rw [hs]; simp) (by simp) hls
+      ⟨by intro h; simp [trailWs_nil] at h, fun _ => hlw⟩
+  have hsl : sliceBytes? snippet st1.line_start (utf8Len sub + utf8Len pre) = some (lastPart [] sub) := by
+    apply sliceBytes_of_split snippet p' (lastPart [] sub) tail
+    · rw [hs]; simp only [List.append_nil] at hsplit; rw [hsplit]
+    · exact hls1
+    · have := congrArg utf8Len hsplit
+      simp only [utf8Len_append, List.append_nil] at this
+      omega
+  unfold processMissingCode
+  rw [hrun]; simp only
+  rw [hsl]; simp only
+  unfold pmcSpec
+  cases hrem : (trim (lastPart [] sub)).isEmpty with
+  | true => exact ⟨st1, v1, by simp, by rw [hbuf]; simp⟩
+  | false =>
+    rw [hbi, hind]
+    refine ⟨{ st1 with line_start := utf8Len sub + utf8Len pre },
+      (v1.push .blank indent).push .code (trim (lastPart [] sub)), by simp, ?_⟩
+    simp [Vis.push, hbuf, List.append_assoc]
+
+/-- A line goes through unchanged or loses one (white-space) character at its end. -/
+theorem keepLine_cases (l : List Char) :
+    keepLine l = l ∨ ∃ c, isWs c = true ∧ l = keepLine l ++ [c] := by
+  unfold keepLine
+  by_cases h : trailWs l % 2 = 1
+  · rw [if_pos h]
+    right
+    have hpos : 0 < trailWs l := by omega
+    unfold trailWs at hpos
+    cases hr : l.reverse with
+    | nil => rw [hr] at hpos; simp at hpos
+    | cons c r =>
+      rw [hr] at hpos
+      have hc : isWs c = true := by
+        by_cases hc : isWs c = true
+        · exact hc
+        · simp [List.takeWhile_cons, hc] at hpos
+      have hl : l = r.reverse ++ [c] := by
+        have := congrArg List.reverse hr; simpa using this
+      refine ⟨c, hc, ?_⟩
+      rw [hl]; simp
+  · rw [if_neg h]; exact Or.inl rfl
+
+/-- With at most one blank at its end a line comes out trimmed. -/
+theorem keepLine_eq_trimEnd (l : List Char) (h : trailWs l ≤ 1) : keepLine l = trimEnd l := by
+  unfold keepLine trimEnd
+  unfold trailWs at h ⊢
+  cases hr : l.reverse with
+  | nil =>
+    have : l = [] := by simpa using congrArg List.reverse hr
+    subst this; simp
+  | cons c r =>
+    have hl : l = r.reverse ++ [c] := by
+      have := congrArg List.reverse hr; simpa using this
+    rw [hr] at h
+    by_cases hc : isWs c = true
+    · simp only [List.takeWhile_cons, hc, if_true, List.length_cons] at h ⊢
+      have hr0 : (r.takeWhile isWs).length = 0 := by omega
+      have hr1 : r.takeWhile isWs = [] := List.length_eq_zero_iff.mp hr0
+      have hdw : r.dropWhile isWs = r := by
+        have := List.takeWhile_append_dropWhile (p := isWs) (l := r)
+        rw [hr1] at this; simpa using this
+      simp only [hr0, List.dropWhile_cons, hc, if_true, hdw]
+      rw [hl]; simp
+    · simp only [List.takeWhile_cons, hc, List.dropWhile_cons]
+      simp
+      exact hl
+
+/-- Every complete line of `cur ++ rest` ends in at most one blank. -/
+def oneTrail : List Char → List Char → Bool
+  | _, [] => true
+  | cur, c :: rest =>
+    if c = '\n' then decide (trailWs cur ≤ 1) && oneTrail [] rest else oneTrail (cur ++ [c]) rest
+
+/-- The complete lines of `cur ++ rest`, each without its trailing white space. -/
+def stripLines : List Char → List Char → List Char
+  | _, [] => []
+  | cur, c :: rest =>
+    if c = '\n' then trimEnd cur ++ ['\n'] ++ stripLines [] rest else stripLines (cur ++ [c]) rest
+
+theorem pmcLines_stripped : ∀ (rest cur : List Char), oneTrail cur rest = true →
+    pmcLines cur rest = stripLines cur rest
+  | [], _, _ => rfl
+  | c :: rest, cur, h => by
+    unfold oneTrail at h
+    unfold pmcLines stripLines
+    by_cases hc : c = '\n'
+    · simp only [hc, if_true, Bool.and_eq_true, decide_eq_true_eq] at h ⊢
+      rw [keepLine_eq_trimEnd cur h.1, pmcLines_stripped rest [] h.2]
+    · simp only [hc, if_false] at h ⊢
+      exact pmcLines_stripped rest (cur ++ [c]) h
+
 end RF.Lemmas.Missed
